@@ -56,6 +56,43 @@ def gen_flat(ck):
     return out
 
 
+def gen_serial(ck, n):
+    """lists of 1..3 serial constraints; each (elems, ops, marker) with marker in {None, 'last', 'outer'}"""
+    els = all_elems()
+    out = []
+    for _ in range(n):
+        cs = []
+        for _ in range(ck.rng.choice([1, 2, 2, 3])):
+            k = ck.rng.choice([1, 1, 2, 3])
+            elems = [ck.rng.choice(els) for _ in range(k)]
+            ops = [ck.rng.choice(['union', 'inter', 'except']) for _ in range(k - 1)]
+            if ops == ['except', 'except']:
+                ops = ['union', 'except']
+            r = ck.rng.random()
+            marker = None if r < 0.6 else ('outer' if (k == 1 and r < 0.8) else 'last')
+            cs.append((elems, ops, marker))
+        out.append(cs)
+    return out
+
+
+def serial_ir(cs):
+    return [{'set': G.chain(with_marker(e, m == 'last'), o), 'ext': m == 'outer'} for e, o, m in cs]
+
+
+def serial_text(cs):
+    parts = []
+    for e, o, m in cs:
+        if m == 'outer':
+            parts.append('((%s), ...)' % G.t_elem(e[0]))
+        else:
+            parts.append(G.t_constraint({'set': G.chain(e, o), 'ext': m == 'last'}))
+    return ''.join(parts)
+
+
+def serial_term(cs):
+    return clist(['(%s, %s)' % (flat_term(with_marker(e, m == 'last'), o), cbool(m == 'outer')) for e, o, m in cs])
+
+
 def obs_term(r):
     return '%s, %s, %s' % (copt(None if r['min'] is None else int(r['min']), cz),
                            copt(None if r['max'] is None else int(r['max']), cz), cbool(r['ext']))
@@ -69,8 +106,13 @@ def parse_attr(attrs, signed=True):
             kind, rng_, ext = m.group(1), m.group(2), bool(m.group(3))
             if '..' in rng_:
                 lo, hi = rng_.split('..', 1)
-                hi = hi.lstrip('=')
-                return kind, (int(lo) if lo else None), (int(hi) if hi else None), ext
+                if hi.startswith('='):
+                    hi_v = int(hi[1:])
+                elif hi:
+                    hi_v = int(hi) - 1            # Rust range syntax: `a..b` excludes b
+                else:
+                    hi_v = None
+                return kind, (int(lo) if lo else None), hi_v, ext
             return kind, int(rng_), int(rng_), ext
     return None, None, None, False
 
@@ -80,10 +122,11 @@ def judge_direct(ck, cases, results):
     fold_terms, fold_idx = [], []
     range_terms, range_idx = [], []
     orc_terms, orc_idx = [], []
+    ser_terms, ser_idx = [], []
     for i, (c, r) in enumerate(zip(cases, results)):
         op = c['op']
         if 'crash' in r or 'harness_error' in r:
-            ck.violation('impl-crash', {k: v for k, v in c.items() if k != '_m'}, impl=r)
+            ck.violation('impl-crash', {k: v for k, v in c.items() if not k.startswith('_')}, impl=r)
             continue
         kind = 2 if 'panic' in r else (1 if 'err' in r else 0)
         if op == 'pv_fold':
@@ -105,13 +148,17 @@ def judge_direct(ck, cases, results):
                 v = 'None'
             range_terms.append('(%s, %s, %d%%N, %s)' % (cbool(c['signed']), clist([G.c_constraint(x) for x in c['constraints']]), kind, v))
             range_idx.append(i)
+            ms = c.get('_ms')
+            if ms and kind == 0:
+                ser_terms.append('(%s, %s, %s)' % (serial_term(ms), cbool(c['signed']), obs_term(r['ok'])))
+                ser_idx.append(i)
             m = c.get('_m')
             if m and kind == 0:
                 elems, ops, marker = m
                 orc_terms.append('(%s, false, %s, %s)' % (flat_term(with_marker(elems, marker), ops), cbool(c['signed']), obs_term(r['ok'])))
                 orc_idx.append(i)
             elif m and kind == 2:
-                ck.violation('impl-violation', {k: v for k, v in c.items() if k != '_m'}, impl=r, why='panic while folding a constraint')
+                ck.violation('impl-violation', {k: v for k, v in c.items() if not k.startswith('_')}, impl=r, why='panic while folding a constraint')
     bad_fold = coq_eval_bad('C04', REQ, 'elem * sop * eos * option charset * bool * N * option (option elem)', 'corr_fold', fold_terms, label='fold')
     bad_range = coq_eval_bad('C04', REQ, 'bool * list constraint * N * option range', 'corr_range', range_terms, label='range')
     bad_orc, mono = coq_eval_bad_multi('C04', REQ, 'flat * bool * bool * option Z * option Z * bool',
@@ -129,9 +176,24 @@ def judge_direct(ck, cases, results):
         elif 'except' in ops and marker and ck.is_known(KNOWN_EXCEPT_MARKER):
             ck.known_hit(KNOWN_EXCEPT_MARKER, {'constraint': text, 'impl': results[i].get('ok')})
         else:
-            ck.violation('impl-violation', {k: v for k, v in c.items() if k != '_m'}, constraint=text, impl=results[i],
+            ck.violation('impl-violation', {k: v for k, v in c.items() if not k.startswith('_')}, constraint=text, impl=results[i],
                          term=orc_terms[j], why='per_visible_range_constraints excludes a permitted value, is not the X.691 '
                                                'effective constraint, or flags extensibility wrongly')
+    bad_ser, ser_mono = coq_eval_bad_multi('C04', REQ, 'list (flat * bool) * bool * option Z * option Z * bool',
+                                           ['oracle_serial', 'fun c => serial_monotone (fst (fst (fst (fst c))))'], ser_terms, label='serial')
+    ser_nonmono = set(ser_mono)
+    for j in bad_ser:
+        i = ser_idx[j]
+        orc_failed.add(i)
+        c = cases[i]
+        text = serial_text(c['_ms'])
+        if j in ser_nonmono and ck.is_known(KNOWN_PREC):
+            ck.known_hit(KNOWN_PREC, {'constraint': text, 'impl': results[i].get('ok')})
+        else:
+            ck.violation('impl-violation', {k: v for k, v in c.items() if not k.startswith('_')}, constraint=text, impl=results[i],
+                         meta_serial=c['_ms'], term=ser_terms[j],
+                         why='serial constraints: the emitted bound excludes a permitted value, is not the intersection of the effective '
+                             'constraints, or flags extensibility wrongly')
     for j in bad_fold:
         ck.broken.append({'kind': 'correspondence', 'item': 'H5 fold_constraint_set',
                           'detail': 'model and implementation disagree on %s: impl %s' % (G.t_eos(cases[fold_idx[j]]['set']), json.dumps(results[fold_idx[j]]))})
@@ -241,6 +303,62 @@ def judge_e2e(ck, cases, results):
                          why='emitted bound excludes a permitted value, is not the effective constraint, or extensibility is wrong')
 
 
+def refs_module(rng_):
+    a1 = rng_.randint(-5, 5); a2 = a1 + rng_.randint(1, 40)
+    z1 = rng_.randint(-300, 300); z2 = z1 + rng_.randint(1, 70000)
+    v = rng_.randint(2, 100000)
+    w = rng_.randint(0, min(50, v))
+    # names are drawn so that the governing type sorts before or after the other type declaring the same identifiers
+    g, o = ('Zeta', 'Alpha') if rng_.random() < 0.5 else ('Alpha', 'Zeta')
+    src = ('M DEFINITIONS AUTOMATIC TAGS ::= BEGIN\n'
+           '%s ::= INTEGER { low(%d), top(%d) }\n%s ::= INTEGER { low(%d), top(%d) }\n'
+           'Wide ::= %s (low..top)\nOther ::= %s (low..top)\n'
+           'vmax INTEGER ::= %d\nvlo INTEGER ::= vone\nvone INTEGER ::= %d\n'
+           'Vr ::= INTEGER (0..vmax)\nCh ::= INTEGER (vlo..vmax)\n'
+           'Ss ::= SEQUENCE { a INTEGER (0..vmax), z %s (low..top), o INTEGER { hi(%d) } (0..hi) }\n'
+           'Own ::= INTEGER { hi(%d) } (0..hi)\n'
+           'Sz ::= OCTET STRING (SIZE(1..vmax))\nEND\n') % (g, z1, z2, o, a1, a2, g, o, v, w, g, v, v)
+    expect = {('struct', 'Wide', None): ('value', z1, z2), ('struct', 'Other', None): ('value', a1, a2),
+              ('struct', 'Vr', None): ('value', 0, v), ('struct', 'Ch', None): ('value', w, v),
+              ('struct', 'Ss', 0): ('value', 0, v), ('struct', 'Ss', 1): ('value', z1, z2), ('struct', 'Ss', 2): ('value', 0, v),
+              ('struct', 'Own', None): ('value', 0, v), ('struct', 'Sz', None): ('size', 1, v)}
+    return src, expect
+
+
+def judge_refs(ck, cases, results):
+    for c, r in zip(cases, results):
+        ck.note_case('refs:' + c['sources'][0])
+        ck.count('refs')
+        if 'panic' in r or 'crash' in r or not r.get('ok') or 'items' not in r:
+            ck.violation('impl-violation', c['sources'][0], impl={k: v for k, v in r.items() if k != 'generated'},
+                         why='module with references in bounds crashed / was rejected')
+            continue
+        for (kind, name, fidx), (akind, lo, hi) in c['_expect'].items():
+            it = find(r['items'], kind, name)
+            if it is None:
+                ck.violation('impl-violation', c['sources'][0], why='%s not generated' % name, warnings=r.get('warnings'))
+                continue
+            attrs = it['attrs'] if fidx is None else it['fields'][fidx]['attrs']
+            if name == 'Sz':
+                m = re.match(r'FixedOctetString<(\d+)(?:usize)?>', it['fields'][0]['ty'])
+                got = ('size', int(m.group(1)), int(m.group(1)), False) if m else parse_attr(attrs)
+            else:
+                got = parse_attr(attrs)
+            if (got[0], got[1], got[2]) != (akind, lo, hi) or got[3]:
+                slug = None
+                if name == 'Own':
+                    slug = 'C04-own-named-number'
+                elif name == 'Ch':
+                    slug = 'C04-value-reference-chain'
+                if slug and ck.is_known(slug):
+                    ck.known_hit(slug, {'type': name, 'got': got, 'want': (akind, lo, hi)})
+                else:
+                    ck.violation('impl-violation', c['sources'][0], position='%s%s' % (name, '' if fidx is None else '.%d' % fidx),
+                                 got=got, want=(akind, lo, hi),
+                                 why='a value reference / named number in a bound is not resolved to the value it names '
+                                     '(bound missing, or taken from another type that declares the same identifier)')
+
+
 def run(ck):
     ck.coverage['rule'] = ('direct: fold_constraint_set (hook) on seeded random element sets mixing integers, strings, SIZE, FROM, PATTERN, '
                            'contained subtypes (range mode); per_visible_range_constraints (public) on every 1- and 2-operand expression '
@@ -265,12 +383,19 @@ def run(ck):
         if ck.rng.random() < 0.3:
             cases.append({'op': 'pv_range', 'signed': False, 'constraints': [{'set': G.E(G.size(cset)), 'ext': False}],
                           '_m': (elems, ops, marker)})
-    for _ in range(800 if ck.tier == 'quick' else 10000):
+    for _ in range(400 if ck.tier == 'quick' else 5000):
         cs = [{'set': G.rand_int_eos(ck.rng, 3, allow_x=True, pool=ALPHABET, notpv=0.1), 'ext': ck.rng.random() < 0.2}
               for _ in range(ck.rng.randint(1, 3))]
         if ck.rng.random() < 0.3:
             cs = [{'set': G.E(G.size(x['set'])), 'ext': x['ext']} for x in cs]
         cases.append({'op': 'pv_range', 'signed': ck.rng.random() < 0.6, 'constraints': cs})
+    serials = gen_serial(ck, 1500 if ck.tier == 'quick' else 30000)
+    for ms in serials:
+        ir = serial_ir(ms)
+        if ck.rng.random() < 0.3:
+            cases.append({'op': 'pv_range', 'signed': False, 'constraints': [{'set': G.E(G.size(x['set'])), 'ext': x['ext']} for x in ir], '_ms': ms})
+        else:
+            cases.append({'op': 'pv_range', 'signed': True, 'constraints': ir, '_ms': ms})
     ck.sample({'pv_fold': G.t_eos(cases[0]['set'])})
     judge_direct(ck, cases, run_harness(cases))
     # end to end
@@ -287,6 +412,11 @@ def run(ck):
     if e2e:
         ck.sample({'asn1': e2e[0]['sources'][0]})
     judge_e2e(ck, e2e, run_harness(e2e))
+    refs = []
+    for _ in range(60 if ck.tier == 'quick' else 1500):
+        src, expect = refs_module(ck.rng)
+        refs.append({'op': 'compile', 'sources': [src], '_expect': expect})
+    judge_refs(ck, refs, run_harness(refs))
 
 
 def replay(ck, data):
